@@ -548,7 +548,23 @@ def build_catalogue() -> None:
     CATALOGUE['open'] = _first_examples(new_open_body(), 24, 'open')
 
 
+def m_withdraw_toggle(draw, msgs: list) -> list:
+    """the same attribute block on the same session, once in an UPDATE that also withdraws and once in one that does not
+    (renderings that depend on the presence of withdrawn routes must not be shared through the attribute set)"""
+    i = draw(sess_idx)
+    tlvs = draw(block_for(i))
+    nlri = draw(nlri_for(i))
+    withdrawn = draw(nlri_for(i))
+    a = update_msg(i, tlvs, nlri, withdrawn)
+    b = update_msg(i, tlvs, nlri)
+    out = [a, b] if draw(st.booleans()) else [b, a]
+    if draw(st.integers(0, 2)) == 0:
+        out.append(list(out[0]))
+    return out
+
+
 MOTIFS = {
+    'withdraw-toggle': (m_withdraw_toggle, 3),
     'cross-identical': (m_cross_identical, 5),
     'near-identical': (m_near_identical, 3),
     'mp-toggle': (m_mp_toggle, 3),
